@@ -27,3 +27,5 @@ def check(repo, rep, tier):
     rd.rule_neq(em, rep, 'C09.M4')
     rx.rule_derived_tables_follow(em, rep, 'C09.M5')
     rx.rule_lookups_agree(em, rep, 'C09.M6')
+    from .. import rules_state as rs
+    rs.rule_deref_closure(em, rep, 'C09.M7')
